@@ -83,7 +83,7 @@ Proof.
   pose proof (natural_nn path opt Ho) as Hn. pose proof (natural_len_nn path opt Ho) as Hl.
   destruct e as [L|].
   - cbn [req_ok] in He. pose proof (lt_zero_nn64 L He) as HL.
-    destruct (near_natural (natural_len path opt) L).
+    destruct (keeps_natural (natural_len path opt) L).
     { rewrite C in H. apply Done_pair_inj in H; destruct H as [_ <-]. exact Hn. }
     destruct (last_two_equal path && D.gt L (natural_len path opt))%bool.
     { rewrite C in H. apply Done_pair_inj in H; destruct H as [_ <-]. apply Forall_app_single; assumption. }
@@ -371,7 +371,7 @@ Proof.
   pose proof (calculate_length_cases path e opt) as C. cbv zeta in C.
   destruct e as [L|].
   - cbn [req_ok] in He. pose proof (lt_zero_nn64 L He) as HL.
-    destruct (near_natural (natural_len path opt) L).
+    destruct (keeps_natural (natural_len path opt) L).
     { rewrite C in H. apply Done_pair_inj in H; destruct H as [_ <-]. exact (dist_natural_nn path opt Hl). }
     destruct (last_two_equal path && D.gt L (natural_len path opt))%bool.
     { rewrite C in H. apply Done_pair_inj in H; destruct H as [_ <-]. rewrite dist_adjusted. exact Hl. }
